@@ -586,4 +586,9 @@ def assemble (chunks : List (Nat × Bytes)) : Bytes :=
   if start = 2 ^ 64 - 1 ∨ start ≥ stop then [] else
   chunks.foldl (fun buf c => placeAt buf (c.1 - start) c.2) (List.replicate (stop - start) 0)
 
+/-- the `(offset, bytes)` pairs of consecutive chunks starting at stream offset `off` -/
+def withOffsets : Nat → List Bytes → List (Nat × Bytes)
+  | _, [] => []
+  | off, b :: bs => (off, b) :: withOffsets (off + b.length) bs
+
 end Compio.QuicWakers
